@@ -68,8 +68,8 @@ def case_scripted(t):
         return int(config["epochs"]) if use_mra and "epochs" in config else max_t
 
     fail = t.chance(1, 2)
-    if not use_decisions and spec.family == "dehb":
-        fail = False  # DEHB cannot digest failed jobs: listed known findings of C05 / C13
+    if not use_decisions and spec.family in ("dehb", "sync-hb"):
+        fail = False  # DEHB cannot digest failed jobs, synchronous brackets resume failed trials: known findings of C05 / C13
     script_fn = make_script_fn(t, max_t_fn, t.bool(), fail_rate=5 if fail else 0)
     flags = {}
     if t.chance(1, 4):
